@@ -85,6 +85,21 @@ func sets() []set {
 		b2.First, b2.Last = 2, 4
 		out = append(out, set{"syn(3..4)+syn(2..4)+syn(1..4)/same-target", []proto.Scn{a2, b2, c2}})
 	}
+	// the other run's replies arrive with a short quote (the router quoted the IP header and 0..3 transport bytes): useless
+	// to the run they answer, and certainly to the neighbour, which has just decoded an ordinary reply of its own
+	for _, v := range []string{"udp4", "udp6", "syn"} {
+		for _, cut := range []int{0, 2} {
+			a, b := scn(v, 0, "", 4), scn(v, 1, "", 4)
+			ql := 20
+			if proto.Info(v).V6 {
+				ql = 40
+			}
+			outer := map[bool]int{false: 20 + 8, true: 40 + 8}[proto.Info(v).V6]
+			a.Hops = map[int]proto.HopSpec{2: {Truncate: outer + ql + cut, DelayUs: 30000}, 3: {Truncate: outer + ql + cut, DelayUs: 30000}}
+			b.Hops = map[int]proto.HopSpec{2: {Silent: true}, 3: {Silent: true}}
+			out = append(out, set{fmt.Sprintf("%s+%s/same-target/neighbours-replies-with-short-quote-%d", v, v, cut), []proto.Scn{a, b}})
+		}
+	}
 	// protocol mixes
 	out = append(out, set{"icmp4+udp4+syn/same-target", []proto.Scn{scn("icmp4", 0, "", 3), scn("udp4", 1, "", 2), scn("syn", 2, "", 4)}})
 	out = append(out, set{"udp4+udp4+udp4/same-target", []proto.Scn{scn("udp4", 0, "", 3), scn("udp4", 1, "", 2), scn("udp4", 2, "", 4)}})
